@@ -568,13 +568,28 @@ pub fn gen_batch(seed: u64, batch: usize, n_full: usize, n_names: usize) -> Vec<
 // ------------------------------------------------------------------ emitter
 
 fn emit_doc(out: &mut String, doc: &[Vec<String>], indent: &str) {
+    // unusual but legal shapes of the same paragraphs: several blank lines between paragraphs, a blank line before the first
+    // and after the last one, extra blanks around a line (rustdoc's meaning is the same)
+    let style = doc.iter().flatten().map(|l| l.len()).sum::<usize>() % 4;
+    if style == 2 && !doc.is_empty() {
+        let _ = writeln!(out, "{}///", indent);
+    }
     for (pi, para) in doc.iter().enumerate() {
         if pi > 0 {
-            let _ = writeln!(out, "{}///", indent);
+            for _ in 0..(if style == 1 || style == 2 { 1 + pi } else { 1 }) {
+                let _ = writeln!(out, "{}///", indent);
+            }
         }
         for l in para {
-            let _ = writeln!(out, "{}/// {}", indent, l);
+            if style == 3 {
+                let _ = writeln!(out, "{}///   {}  ", indent, l);
+            } else {
+                let _ = writeln!(out, "{}/// {}", indent, l);
+            }
         }
+    }
+    if style == 2 && !doc.is_empty() {
+        let _ = writeln!(out, "{}///", indent);
     }
 }
 
